@@ -34,6 +34,22 @@ detail::fiber::FiberBase* Scheduler::GetNext() {
     }
   }
 #endif
+#ifdef YACLIB_VERIF
+  if (auto* f = verif::GetHooks().on_pick) {
+    std::uint64_t ids[64];
+    int n = 0;
+    for (auto* first = _queue.GetElement(0, false); n != 64;) {
+      auto* node = _queue.GetElement(static_cast<std::size_t>(n), false);
+      if (node == nullptr || (n != 0 && node == first)) {
+        break;
+      }
+      ids[n++] = static_cast<detail::fiber::FiberBase*>(static_cast<detail::fiber::BiNodeScheduler*>(node))->GetId();
+    }
+    auto* picked = PollRandomElementFromList(_queue);
+    f(0, ids, n, static_cast<detail::fiber::FiberBase*>(static_cast<detail::fiber::BiNodeScheduler*>(picked))->GetId());
+    return static_cast<detail::fiber::FiberBase*>(static_cast<detail::fiber::BiNodeScheduler*>(picked));
+  }
+#endif
   auto* next = PollRandomElementFromList(_queue);
   return static_cast<detail::fiber::FiberBase*>(static_cast<detail::fiber::BiNodeScheduler*>(next));
 }
